@@ -143,7 +143,12 @@ type replayResult struct {
 	Alloc    int64
 }
 
+var replayNoStub = map[string]bool{}
+
 func (r *replayer) run(dir, harness string, v *Violation, file string) (*replayResult, error) {
+	if harnessNoStub(r.hfs, harness) {
+		replayNoStub[harness] = true
+	}
 	bin, err := r.binary(dir)
 	if err != nil {
 		return nil, err
@@ -157,12 +162,27 @@ func (r *replayer) run(dir, harness string, v *Violation, file string) (*replayR
 	return runReplayBinary(bin, filepath.Join(repoDir, dir), harness, file, r.tier)
 }
 
+// harnessNoStub: the harness carries the `nostub` directive
+func harnessNoStub(hfs []*HarnessFile, name string) bool {
+	for _, h := range hfs {
+		for _, f := range h.Funcs {
+			if f.Name == name {
+				return f.Dirs["nostub"] != ""
+			}
+		}
+	}
+	return false
+}
+
 func runReplayBinary(bin, cwd, harness, file, tier string) (*replayResult, error) {
 	ctx, cancel := context.WithTimeout(context.Background(), 40*time.Second)
 	defer cancel()
 	cmd := exec.CommandContext(ctx, bin, "-test.run", "^TestZZReplay$", "-test.v", "-test.timeout", "30s")
 	cmd.Dir = cwd
-	cmd.Env = append(os.Environ(), "TMPDIR="+filepath.Dir(bin), "ZZVF_REPLAY="+file, "ZZVF_HARNESS="+harness, "ZZVF_TIER="+tier)
+	if replayNoStub[harness] {
+		cmd.Env = append(cmd.Env, "ZZVF_NOSTUB=1")
+	}
+	cmd.Env = append(append(os.Environ(), cmd.Env...), "TMPDIR="+filepath.Dir(bin), "ZZVF_REPLAY="+file, "ZZVF_HARNESS="+harness, "ZZVF_TIER="+tier)
 	var buf bytes.Buffer
 	cmd.Stdout = &buf
 	cmd.Stderr = &buf
@@ -601,6 +621,9 @@ func cmdReplay(args []string) int {
 		return 2
 	}
 	abs, _ := filepath.Abs(args[0])
+	if harnessNoStub(hfs, rf.Harness) {
+		replayNoStub[rf.Harness] = true
+	}
 	rr, _ := runReplayBinary(bin, filepath.Join(repoDir, rf.Dir), rf.Harness, abs, rf.Tier)
 	fmt.Print(rr.Out)
 	ok, why := confirmed(&Violation{Label: rf.Label, Kind: rf.Kind}, rr)
@@ -676,9 +699,9 @@ func (r *replayer) stubOverlay(ov map[string]string) error {
 				ret := "return "
 				if fd.Type.Results == nil || len(fd.Type.Results.List) == 0 {
 					ret = "return; "
-					byFile[lo.Filename] = append(byFile[lo.Filename], edit{lo.Offset, lo.Offset + 1, "{ if zzvfstub.Native() { zzvfstub." + target + "(" + callArgs + "); return }; "})
+					byFile[lo.Filename] = append(byFile[lo.Filename], edit{lo.Offset, lo.Offset + 1, "{ if zzvfstub.StubActive() { zzvfstub." + target + "(" + callArgs + "); return }; "})
 				} else {
-					byFile[lo.Filename] = append(byFile[lo.Filename], edit{lo.Offset, lo.Offset + 1, "{ if zzvfstub.Native() { " + ret + "zzvfstub." + target + "(" + callArgs + ") }; "})
+					byFile[lo.Filename] = append(byFile[lo.Filename], edit{lo.Offset, lo.Offset + 1, "{ if zzvfstub.StubActive() { " + ret + "zzvfstub." + target + "(" + callArgs + ") }; "})
 				}
 			}
 		}
